@@ -463,8 +463,8 @@ TIES = {
                       cxx='the delegating layers: call_matcher::is_satisfied / is_saturated / sequence_cost, sequence_handler<N>::validate / order / '
                           'retire / retire_predecessors, sequence_matchers<0>::order, lifetime_monitor::is_satisfied / is_saturated, '
                           'sequence::is_completed, sequence_matcher::is_satisfied, condition::check, get_min_calls / get_calls'),
-    'ReturnPath': dict(props=['C08', 'C17'], gen=['ReturnHandlerCall', 'TraceReturnVoid', 'TraceReturnValue'],
-                       theorems=['return_path_tie', 'return_evaluated_once'],
+    'ReturnPath': dict(props=['C08', 'C17'], gen=['ReturnHandlerCall', 'TraceReturnVoid', 'TraceReturnValue', 'ThrowHandlerCall'],
+                       theorems=['return_path_tie', 'return_evaluated_once', 'throw_path_tie', 'throw_evaluated_once'],
                        cxx='return_handler_t::call and the two trace_return<Ret> helpers (mock.hpp): the RETURN functor is evaluated once'),
     'DecayReturn': dict(props=['C08', 'C09'], gen=['DecayReturnType'],
                         theorems=['decay_return_table_tie', 'lvalue_return_is_same_object', 'rvalue_return_is_value', 'array_return_is_pointer'],
